@@ -83,6 +83,7 @@ func Load(repo string, overlay map[string]string, patterns []string) (*Program, 
 				"github.com/charlievieth/fastwalk.Walk":            "zzMX_fastwalk_Walk",
 				"github.com/charlievieth/fastwalk.DefaultToSlash": "zzMX_fastwalk_DefaultToSlash",
 				"net.Listen": "zzMX_net_Listen",
+				"encoding/json.Marshal": "zzMX_json_Marshal",
 			} {
 				if fn := pk.Func(model); fn != nil {
 					P.redirect[real] = fn
